@@ -22,6 +22,8 @@ import (
 
 	erpc "github.com/henrylee2cn/erpc/v6"
 
+	"github.com/henrylee2cn/erpc/v6/socket"
+
 	"verifharness/bed"
 	"verifharness/core"
 	"verifharness/gates"
@@ -135,7 +137,7 @@ type PlugSpec struct {
 
 // Op is one step of the registration script of a peer, executed in order.
 type Op struct {
-	Kind   string     `json:"op"`               // new | left | right | group | call | push
+	Kind   string     `json:"op"`               // new | left | right | group | call | push | ucall | upush (unknown-route handlers)
 	ID     int        `json:"id,omitempty"`     // group id / route id (unique per peer)
 	Parent int        `json:"parent,omitempty"` // parent group id (0 = root router)
 	Fn     string     `json:"fn,omitempty"`     // name in the handler pool
@@ -159,6 +161,9 @@ type Msg struct {
 	Route int    `json:"route"`
 	Sub   int    `json:"sub,omitempty"` // method index for controller routes
 	Veto  *Veto  `json:"veto,omitempty"`
+	// Fault is what the handler of a CALL does instead of answering OK (reply-side fault classes):
+	// err | panic | unmarshal:<codec id> | big | slow
+	Fault string `json:"fault,omitempty"`
 }
 
 type Config struct {
@@ -278,6 +283,10 @@ func chain(p *PeerSpec, rid int) (global, route []pref) {
 			if i == ri {
 				handler = mkPrefs(op, i, "handler-level", 4)
 			}
+		case "ucall", "upush": // SetUnknownCall / SetUnknownPush: derived from the root container like a root-level handler
+			if i == ri {
+				handler = mkPrefs(op, i, "unknown-handler-level", 4)
+			}
 		}
 	}
 	global = append(append([]pref{}, left...), right...)
@@ -332,7 +341,7 @@ func foreignClass(p *PeerSpec, name string) string {
 				switch p.Ops[i].Kind {
 				case "group":
 					return "foreign-group"
-				case "call", "push":
+				case "call", "push", "ucall", "upush":
 					return "foreign-handler"
 				}
 				return "global"
@@ -392,7 +401,36 @@ func expectedHooks(c *Config, m *Msg) []Veto {
 // ---------------------------------------------------------------- handler pool (concrete Go names)
 
 type Arg struct{ N int }
-type Res struct{ N int }
+type Res struct {
+	N int
+	S string      `json:"S,omitempty" xml:"S,omitempty"`
+	X interface{} `json:"X,omitempty" xml:"X,omitempty"`
+}
+
+const (
+	bigReply  = 8192 // bytes of reply body for the "big" fault
+	sizeLimit = 4096 // message size limit while a "big" call is in flight (process-global, restored afterwards)
+	slowAge   = 5 * time.Millisecond
+	slowSleep = 25 * time.Millisecond
+)
+
+// misbehave implements the reply-side fault classes; the fault travels in the metadata of the CALL.
+func misbehave(fx string, n int, setCodec func(byte)) (*Res, *erpc.Status) {
+	switch {
+	case fx == "err":
+		return nil, erpc.NewStatus(417, "handler says no", nil)
+	case fx == "panic":
+		panic("c09: handler panic")
+	case strings.HasPrefix(fx, "unmarshal:") && len(fx) == 11:
+		setCodec(fx[10]) // a body the chosen codec cannot marshal: a channel inside (json, xml), not a message (protobuf, thrift), not text (plain)
+		return &Res{N: n, X: make(chan int)}, nil
+	case fx == "big":
+		return &Res{N: n, S: strings.Repeat("x", bigReply)}, nil
+	case fx == "slow":
+		time.Sleep(slowSleep) // outlives the context age set for this call: the reply context has expired
+	}
+	return &Res{N: n + 1}, nil
+}
 
 func onCall(c erpc.CallCtx, a *Arg) (*Res, *erpc.Status) {
 	mid := string(c.PeekMeta("Mid"))
@@ -400,7 +438,28 @@ func onCall(c erpc.CallCtx, a *Arg) (*Res, *erpc.Status) {
 		r.handler(c.Peer(), mid, c.ServiceMethod(), ptrOf(c), linkKey(c.Session()))
 	}
 	c.SetMeta("Mid", mid)
-	return &Res{N: a.N + 1}, nil
+	return misbehave(string(c.PeekMeta("Fx")), a.N, c.SetBodyCodec)
+}
+
+func onUnknownCall(c erpc.UnknownCallCtx) (interface{}, *erpc.Status) {
+	mid := string(c.PeekMeta("Mid"))
+	if r := current(); r != nil {
+		r.handler(c.Peer(), mid, c.ServiceMethod(), ptrOf(c), linkKey(c.Session()))
+	}
+	c.SetMeta("Mid", mid)
+	res, stat := misbehave(string(c.PeekMeta("Fx")), 0, c.SetBodyCodec)
+	if res == nil {
+		return nil, stat
+	}
+	return res, stat
+}
+
+func onUnknownPush(c erpc.UnknownPushCtx) *erpc.Status {
+	mid := string(c.PeekMeta("Mid"))
+	if r := current(); r != nil {
+		r.handler(c.Peer(), mid, c.ServiceMethod(), ptrOf(c), linkKey(c.Session()))
+	}
+	return nil
 }
 
 func onPush(c erpc.PushCtx, a *Arg) *erpc.Status {
@@ -885,7 +944,62 @@ func genConfig(r *core.Rand, nmsg int) *Config {
 		}
 		c.Msgs = append(c.Msgs, m)
 	}
+	genReplyFaults(core.NewRand(int64(r.Uint64()>>1), 17), c)
 	return c
+}
+
+var faultKinds = []string{"err", "panic", "unmarshal:j", "unmarshal:p", "unmarshal:t", "unmarshal:x", "unmarshal:s", "big", "slow"}
+
+// genReplyFaults is a second pass over a generated configuration (its own PRNG stream, so placements
+// and messages of the first pass are unchanged): unknown-route handlers with their own plug-ins on
+// some peers, and reply-side faults on some CALLs.
+func genReplyFaults(r *core.Rand, c *Config) {
+	for side := 0; side < 2; side++ {
+		p := c.peer(side)
+		maxID, n := 0, 0
+		for _, op := range p.Ops {
+			if op.ID > maxID {
+				maxID = op.ID
+			}
+		}
+		for _, k := range []string{"ucall", "upush"} {
+			if r.Intn(3) != 0 {
+				continue
+			}
+			maxID++
+			op := Op{Kind: k, ID: maxID}
+			for i, np := 0, r.Intn(3); i < np; i++ {
+				n++
+				t := typeDist[r.Intn(len(typeDist))]
+				op.Plugs = append(op.Plugs, PlugSpec{fmt.Sprintf("%su%d%s", strings.ToLower(sideName[side]), n, t[:1]), t})
+			}
+			at := 1 + r.Intn(len(p.Ops))
+			p.Ops = append(p.Ops[:at], append([]Op{op}, p.Ops[at:]...)...)
+			want := "call"
+			if k == "upush" {
+				want = "push"
+			}
+			for i := range c.Msgs {
+				if m := &c.Msgs[i]; m.Route == 0 && m.Kind == want && sideIdx(m.From) == 1-side {
+					m.Route = op.ID // unregistered name, answered by the unknown handler
+				}
+			}
+		}
+	}
+	for i := range c.Msgs {
+		m := &c.Msgs[i]
+		if m.Kind != "call" || m.Route == 0 || r.Intn(20) >= 7 {
+			continue
+		}
+		m.Fault = faultKinds[r.Intn(len(faultKinds))]
+		// (always for "slow": with a context age on the session a refused call could lose its reply to the deadline as well)
+		if v := m.Veto; v != nil && (r.Intn(3) != 0 || m.Fault == "slow") {
+			switch v.Stage { // a refusal before the handler would keep the fault from happening
+			case "PreWriteCall", "PreReadHeader", "PostReadCallHeader", "PreReadCallBody", "PostReadCallBody":
+				m.Veto = nil
+			}
+		}
+	}
 }
 
 // ---------------------------------------------------------------- execution
@@ -945,6 +1059,12 @@ func (r *run) buildPeerCfg(side int, spec *PeerSpec, pcfg erpc.PeerConfig) (erpc
 			} else {
 				routes[op.ID] = []string{rt.RoutePushFunc(pe.fn(), mk(op.Plugs)...)}
 			}
+		case "ucall":
+			peer.SetUnknownCall(onUnknownCall, mk(op.Plugs)...)
+			routes[op.ID] = []string{"/c09/unregistered/call"}
+		case "upush":
+			peer.SetUnknownPush(onUnknownPush, mk(op.Plugs)...)
+			routes[op.ID] = []string{"/c09/unregistered/push"}
 		}
 	}
 	return peer, routes
@@ -993,7 +1113,7 @@ type viol struct {
 func (v viol) fp() string { return fmt.Sprintf("%s/%s/%s/%s", *prop, v.kind, v.class, v.symptom) }
 
 type caseStats struct {
-	msgs, hooks, vetoScripted, vetoFired, vetoHonoured, handlerRuns, hdrAttributed, unexpected int64
+	faults, msgs, hooks, vetoScripted, vetoFired, vetoHonoured, handlerRuns, hdrAttributed, unexpected int64
 }
 
 const watchdog = 10 * time.Second
@@ -1042,7 +1162,12 @@ func runConfig(cfg *Config, st *caseStats, distinct bool) (viols []viol, inconcl
 			st.vetoScripted++
 		}
 		out := outcome{route: name}
-		setting := erpc.WithSetMeta("Mid", m.ID)
+		setting := func(msg erpc.Message) {
+			msg.Meta().Set("Mid", m.ID)
+			if m.Fault != "" {
+				msg.Meta().Set("Fx", m.Fault)
+			}
+		}
 		gotSeq := int32(-1)
 		do := func(s erpc.Session) (string, bool) { // returns inconclusive reason, completed
 			done := make(chan *erpc.Status, 1)
@@ -1107,7 +1232,21 @@ func runConfig(cfg *Config, st *caseStats, distinct bool) (viols []viol, inconcl
 			r.sc = sc
 			r.mu.Unlock()
 			w0 := conn[x].Written()
+			oldLimit := socket.MessageSizeLimit()
+			switch m.Fault {
+			case "big":
+				socket.SetMessageSizeLimit(sizeLimit)
+			case "slow":
+				sess[y].(erpc.PreSession).SetContextAge(slowAge)
+			}
 			why, ok := do(sess[x])
+			// the caller has its answer: the reply (and its fallback) has been packed, the context age has been read
+			switch m.Fault {
+			case "big":
+				socket.SetMessageSizeLimit(oldLimit)
+			case "slow":
+				sess[y].(erpc.PreSession).SetContextAge(0)
+			}
 			if !ok {
 				link.CA.Sever(false)
 				return viols, why
@@ -1546,9 +1685,55 @@ func (r *run) evaluate(cfg *Config, m *Msg, out outcome, st *caseStats, distinct
 			rq = ry
 			ck.globalOnly = false
 		}
-		w1 := ck.stage(y, "reply", sPreWriteReply, rq, allowedY, active)
-		w2 := ck.stage(y, "reply", sPostWriteReply, rq, allowedY, active && w1 == nil)
-		replyOK := active && matched && pre == nil && handlerRuns > 0
+		// reply-side faults take effect when the handler ran. What the pinned call path documents by its structure:
+		// a panicking handler is answered from the recover path (no reply hooks demanded); a reply whose first write
+		// fails (body not marshallable, over the size limit, reply context expired) has had its PreWriteReply and is
+		// replaced by an error reply without PostWriteReply (none demanded). At most once, order and scope always apply.
+		fault := ""
+		if handlerRuns > 0 {
+			fault = m.Fault
+		}
+		firstWriteFails := strings.HasPrefix(fault, "unmarshal:") || fault == "big" || m.Fault == "slow"
+		w1 := ck.stage(y, "reply", sPreWriteReply, rq, allowedY, active && fault != "panic")
+		w2 := ck.stage(y, "reply", sPostWriteReply, rq, allowedY, active && w1 == nil && fault != "panic" && !firstWriteFails)
+		if w1 == nil { // PostWriteReply only for a reply that went through PreWriteReply
+			seenPre := map[string]bool{}
+			for _, e := range ents {
+				if e.Side == y && e.Stage == sPreWriteReply {
+					seenPre[e.Plug] = true
+				}
+			}
+			for _, e := range ents {
+				if e.Side == y && e.Stage == sPostWriteReply && !seenPre[e.Plug] {
+					for _, p := range allowedY {
+						if p.Name == e.Plug && implements(p.Type, sPreWriteReply) {
+							ck.report("missing-hook", "reply", p.Class, fmt.Sprintf("reply on peer %s: PostWriteReply of %s was called for a reply whose PreWriteReply it never saw", sideName[y], p.Name))
+						}
+					}
+				}
+			}
+		}
+		if fault != "" && distinct {
+			st.faults++
+			core.Add("reply_fault_executed_"+strings.Replace(fault, ":", "_codec_", 1), 1)
+			core.Distinct("reply_fault_outcomes", fmt.Sprintf("%s -> caller status %d", fault, code))
+			npre, npost := 0, 0
+			for _, e := range ents {
+				if e.Side == y && e.Stage == sPreWriteReply {
+					npre++
+				} else if e.Side == y && e.Stage == sPostWriteReply {
+					npost++
+				}
+			}
+			core.Add("reply_fault_prewritereply_hooks", int64(npre))
+			core.Add("reply_fault_postwritereply_hooks", int64(npost))
+			for _, p := range rq {
+				if implements(p.Type, sPreWriteReply) {
+					core.Distinct("nontrivial", p.Class+"/reply/fault:"+fault)
+				}
+			}
+		}
+		replyOK := active && matched && pre == nil && handlerRuns > 0 && fault == ""
 		ck.stage(x, "reply", sPreReadHeader, gx, gx, active && anchored(x) && hasReplyRead(ents, x))
 		r1 := ck.stage(x, "reply", sPostReadReplyHeader, gx, gx, active)
 		r2 := ck.stage(x, "reply", sPreReadReplyBody, gx, gx, active && r1 == nil && replyOK)
@@ -1558,7 +1743,7 @@ func (r *run) evaluate(cfg *Config, m *Msg, out outcome, st *caseStats, distinct
 				vetoPos = stageName[v.Stage]
 			}
 		}
-		if m.Veto == nil && matched && (code != 0 || handlerRuns != 1) {
+		if m.Veto == nil && m.Fault == "" && matched && (code != 0 || handlerRuns != 1) {
 			st.unexpected++
 		}
 	} else {
@@ -1694,7 +1879,7 @@ func shrink(cfg *Config, v viol) *Config {
 				isTarget := side == y && op.ID == m.Route && op.ID != 0
 				removable := false
 				switch op.Kind {
-				case "call", "push":
+				case "call", "push", "ucall", "upush":
 					removable = !isTarget
 				case "group":
 					removable = !referenced
@@ -1728,6 +1913,9 @@ func shrink(cfg *Config, v viol) *Config {
 		}
 		if m.Veto != nil {
 			cands = append(cands, func(c *Config) bool { c.Msgs[0].Veto = nil; return true })
+		}
+		if m.Fault != "" {
+			cands = append(cands, func(c *Config) bool { c.Msgs[0].Fault = ""; return true })
 		}
 		for _, f := range cands {
 			if budget <= 0 {
